@@ -565,6 +565,10 @@ func TestVerif(t *testing.T) {
 		if hashOut == "" {
 			orig = p.clone()
 		}
+		if d := os.Getenv("VERIF_DUMPPLAN"); d != "" {
+			pb, _ := json.MarshalIndent(replayDoc{Property: prop, Plan: p, Seed: p.Seed, Tier: tier, Engine: p.Engine, Violation: Violation{}}, "", " ")
+			_ = os.WriteFile(fmt.Sprintf("%s.%d.json", d, idx), pb, 0644)
+		}
 		out := runPlan(t, p)
 		sum.Runs++
 		if len(sum.Seeds) < 5 {
